@@ -64,8 +64,12 @@ def resolveExpr (env : Env) (t : Tbl) (aiw : Bool) : SExpr → Except Err Expr
       | some src =>
         match src.colByName name with
         | .error e => .error e
-        | .ok (.col u dt ft) =>
-            if (t.cache.col? u).isSome then .ok (.col u dt ft) else .error .columnNotFound
+        | .ok (.col u _ ft) =>
+            -- the reference takes the dtype the table currently has for the column (a column that was constant in an
+            -- operand of a union is an ordinary column of the result: repair of D85); the function type stays the carried one
+            match t.cache.col? u with
+            | some m => .ok (.col u m.dtype ft)
+            | none => .error .columnNotFound
         | .ok e => .ok e
   | .cname name => t.colByName name
   | .lit v ty => .ok (.lit v (match ty with | some d => d.withoutConst | none => v.pyDtype))
